@@ -7,6 +7,9 @@ import CdsVerif.Driver.FCBatch
 import CdsVerif.Algo.Spin.Model
 import CdsVerif.Algo.Treiber.Model
 import CdsVerif.Algo.MSQueue.Model
+import CdsVerif.Algo.Moir.Model
+import CdsVerif.Algo.RWQueue.Model
+import CdsVerif.Algo.Optimistic.Model
 import CdsVerif.Algo.Ring.Model
 import CdsVerif.Algo.Vyukov.Model
 import CdsVerif.Algo.FreeList.Model
@@ -19,12 +22,15 @@ import CdsVerif.Algo.DHP.Replay
 import CdsVerif.Algo.RCU.Model
 import CdsVerif.Algo.Michael.Model
 import CdsVerif.Algo.SplitList.Model
+import CdsVerif.Algo.Feldman.Model
+import CdsVerif.Algo.SkipList.Abs
 import CdsVerif.Algo.Lazy.Model
 import CdsVerif.Algo.Iterable.Model
 import CdsVerif.Algo.Striped.Replay
 import CdsVerif.Algo.MSPQ.Model
 import CdsVerif.Algo.Segmented.Model
 import CdsVerif.Algo.FC.KernelR
+import CdsVerif.Algo.FC.Objects
 open CdsVerif.Driver
 
 partial def lcLoop (h : IO.FS.Stream) (st : LcState) : IO Unit := do
@@ -95,6 +101,22 @@ def main (args : List String) : IO UInt32 := do
   | ["replay", "msqueue"] =>
     replayLoop stdin CdsVerif.Algo.MSQueue.model (fun _ => CdsVerif.Algo.MSQueue.init)
       (fun loc => loc == "head" || loc == "tail" || (loc.startsWith "n" && !(loc.any (· == '+')))) (fun _ => true) none
+    return 0
+  | ["replay", "moir"] =>
+    -- harness variant `imoir_hp` of the `queue` client (nodes named like imsqueue_hp); machine Algo/Moir
+    replayLoop stdin CdsVerif.Algo.Moir.model (fun _ => CdsVerif.Algo.Moir.init)
+      (fun loc => loc == "head" || loc == "tail" || (loc.startsWith "n" && !(loc.any (· == '+')))) (fun _ => true) none
+    return 0
+  | ["replay", "rwqueue"] =>
+    -- hidden harness variant `rwqueue_named` of the `queue` client (nodes named through the allocator trait, lock words hlock / tlock)
+    replayLoop stdin CdsVerif.Algo.RWQueue.model (fun _ => CdsVerif.Algo.RWQueue.init)
+      (fun loc => loc == "hlock" || loc == "tlock" || (loc.startsWith "n" && loc.length > 1 && (loc.drop 1).all Char.isDigit)) (fun _ => true) none
+    return 0
+  | ["replay", "optimistic"] =>
+    -- hidden harness variant `ioptimistic_named` of the `queue` client (n<k> = node k's m_pNext, p<k> = its m_pPrev); machine Algo/Optimistic
+    replayLoop stdin CdsVerif.Algo.Optimistic.model (fun _ => CdsVerif.Algo.Optimistic.init)
+      (fun loc => loc == "head" || loc == "tail" ||
+        ((loc.startsWith "n" || loc.startsWith "p") && loc.length > 1 && (loc.drop 1).all Char.isDigit)) (fun _ => true) none
     return 0
   | ["replay", "treiber"] =>
     replayLoop stdin CdsVerif.Algo.Treiber.model (fun _ => CdsVerif.Algo.Treiber.init)
@@ -195,6 +217,17 @@ def main (args : List String) : IO UInt32 := do
         ((loc.startsWith "n" || loc.startsWith "d" || loc.startsWith "b") && loc.length > 1 && (loc.drop 1).all Char.isDigit))
       (fun _ => true) none
     return 0
+  | ["replay", "skiplist"] =>
+    -- harness variant `iskipset_hp_named` of the `tree` client; tower heights from the header word hts=
+    replayLoop stdin CdsVerif.Algo.SkipList.replayModel CdsVerif.Algo.SkipList.replayInit
+      (fun loc => loc == "hgt" || ((loc.startsWith "h." || loc.startsWith "n") && loc.any (· == '.') && !(loc.any (· == '+'))))
+      CdsVerif.Algo.SkipList.replayInv none
+    return 0
+  | ["replay", "feldman"] =>
+    -- harness variant `ifset_hp_named` of the `hashset` client (intrusive FeldmanHashSet<HP>); header words hb= ab= shift=
+    replayLoop stdin CdsVerif.Algo.Feldman.replayModel CdsVerif.Algo.Feldman.replayInit
+      CdsVerif.Algo.Feldman.relevant (fun _ => true) none
+    return 0
   | ["replay", "ring"] =>
     -- initial state from the header words `cap=<capacity()>` and (optional) `rot=<warm-up rotations>`
     replayLoop stdin CdsVerif.Algo.Ring.model (fun cfg => CdsVerif.Algo.Ring.initCfg cfg)
@@ -204,6 +237,12 @@ def main (args : List String) : IO UInt32 := do
     -- harness variant `imspq_named` of the `pqueue` client; header words `cap=<capacity()>` `pre=<pre-filled values>`
     replayLoop stdin CdsVerif.Algo.MSPQ.rmodel (fun cfg => CdsVerif.Algo.MSPQ.rinit cfg)
       CdsVerif.Algo.MSPQ.relevant (fun _ => true) none
+    return 0
+  | ["replay", "fckernelg"] =>
+    -- the GENERIC flat-combining machine (Algo/FC/KernelG: kernel = KernelR, container = any sequential object) with the deque
+    -- object (C10_fcdeque_linearizable); harness client `fckernel --container deque`; same pre-pass (tools/fckernel_pre.py)
+    replayLoop stdin CdsVerif.Algo.FC.Objects.rmodel (fun cfg => CdsVerif.Algo.FC.Objects.rinit cfg)
+      CdsVerif.Algo.FC.KernelR.isRecLoc CdsVerif.Algo.FC.Objects.okB none
     return 0
   | ["replay", "fckernel"] =>
     -- flat-combining kernel (C23): harness client `fckernel`, header words `threads=` `cf=` `pass=`; machine Algo/FC/KernelR
